@@ -52,6 +52,9 @@ MACRO_LIB = ("DEFINE PRIO 30 <ID> ( <ARGS> ) AS RUN $0 WITH $1 END END DEFINE\n"
              "DEFINE PRIO 5 REPN <ID> { <P> } AS #0 := $0; LOOP #0 DO $1 END END DEFINE\n"
              "DEFINE PRIO 5 REPZ <ID> { <P> } AS #0 := $0; LOOP #0 DO $1; #0 := 0 END END DEFINE\n"
              "DEFINE PRIO 5 REPUP <ID> { <P> } AS #0 := $0; LOOP #0 DO #0 := #0 + 1; $1 END END DEFINE\n"
+             # a WHILE over a temporary that counts down: here the temporary must survive the body (a nested use of the same
+             # macro must get its own)
+             "DEFINE PRIO 5 REPW <ID> { <P> } AS #0 := $0; WHILE #0 != 0 DO $1; #0 := #0 - 1 END END DEFINE\n"
              "DEFINE PRIO 5 ROT12 <ID> <ID> <ID> <ID> <ID> <ID> <ID> <ID> <ID> <ID> <ID> <ID> AS $11 := $0 ; $10 := $1 ; $2 := $11 END DEFINE\n")
 
 
@@ -118,6 +121,39 @@ def gen_programs(ctx, n, big=False, layouts=('canonical', 'random', 'multi', 'ma
             fl['m'] = head + inc + sources.st_toks(main)
             main = copies + main
             files = {kk.encode(): sources.text_of_tokens(v, r).encode() for kk, v in fl.items()}
+        elif lay == 'repeat_canon':
+            # as `repeat`, one statement per line: the lines of the repeated file are visited once per inclusion
+            import copy
+            gb = sources.Gen(r, looponly=True)
+            raw = [st for st in gb.stmts([], [], 1, r.randint(0, 2)) if st[0] not in ('stop', 'label')]
+            raw.insert(r.randrange(len(raw) + 1), ['assign', 'rr', ('inc', 'rr', r.randint(1, 3))])
+            if len(raw) < 2:
+                # two adjacent inclusions of a one-statement file put two statements on the same line of the same file:
+                # that is not the one-statement-per-line layout (one stop, as for `a := 1; b := 2` on one line)
+                raw.append(['assign', 'rq', ('inc', 'rq', 1)])
+            k = r.randint(2, 3)
+            fl, L = sources.canonical_multi(defs, [], r)
+            copies = []
+            pad = r.randint(0, 2)
+            for _ in range(k):
+                cp = sources.number([], copy.deepcopy(raw))[1]
+                trep, lr = sources.canonical([], cp, None)
+                for kk, v in lr.items():
+                    L[kk] = ('rep', v + pad)
+                copies += cp
+            fl['rep'] = '// r\n' * pad + trep + ';\n'
+            via = r.random() < 0.5
+            if via:
+                for j in range(k):
+                    fl['p%d' % j] = 'include "rep"\n'
+            mlines = fl['m'].rstrip('\n').split('\n') if fl['m'].strip('\n') else []
+            mlines += ['include "%s"' % (('p%d' % j) if via else 'rep') for j in range(k)]
+            tmain, lm = sources.canonical([], main, r)
+            for kk, v in lm.items():
+                L[kk] = ('m', v + len(mlines))
+            fl['m'] = '\n'.join(mlines) + '\n' + tmain
+            main = copies + main
+            files = {kk.encode(): v.encode() for kk, v in fl.items()}
         elif lay == 'taillabel':
             # the tail on one line (several statements share it), or a few line breaks, or one statement per line
             k_ = r.random()
@@ -144,10 +180,15 @@ def gen_programs(ctx, n, big=False, layouts=('canonical', 'random', 'multi', 'ma
                         return True
                 return False
 
+            # half of the programs write all their loops through ONE macro (nested uses of the same macro are then common)
+            onefmt = r.choice(['REPN', 'REPZ', 'REPUP'] + ([] if looponly else ['REPW', 'REPW', 'REPW'])) if r.random() < 0.5 else None
+
             def loopfmt(st):
+                if st[-1] not in fmt and onefmt is not None:
+                    fmt[st[-1]] = None if zero_call_in(st[2]) else onefmt
                 if st[-1] not in fmt:
                     # the detector grammar's <P> cannot derive a RUN without arguments: such bodies stay in LOOP syntax
-                    fmt[st[-1]] = None if zero_call_in(st[2]) else r.choice([None, None, 'REPN', 'REPZ', 'REPUP'])
+                    fmt[st[-1]] = None if zero_call_in(st[2]) else r.choice([None, None, 'REPN', 'REPZ', 'REPUP'] + ([] if looponly else ['REPW', 'REPW']))
                 return fmt[st[-1]]
             if r.random() < 0.4:
                 # a wide macro (12 slots, two-digit `$n` in the body) at the start of the main script:
@@ -164,9 +205,32 @@ def gen_programs(ctx, n, big=False, layouts=('canonical', 'random', 'multi', 'ma
                 main = pre + main
             else:
                 text, L0 = sources.canonical(defs, main, r, pv=pv_macro, loopfmt=loopfmt)
+            if r.random() < 0.4:
+                # all macro uses start on the same line
+                text = text.replace('\n', ' ')
             files = {b'm': b'include "lib"\n' + text.encode(), b'lib': MACRO_LIB.encode()}
         out.append({'defs': defs, 'main': main, 'mainf': b'm', 'files': files, 'layout': lay, 'L': L,
                     'text': {k.decode(): v.decode('latin1') for k, v in files.items()}})
+    return out
+
+
+def nested_macro_loops():
+    """every loop macro of the library nested in itself two and three deep (counts 3, 2, 2), written on one line and one
+    statement per line: each use must get its own temporaries wherever it stands"""
+    out = []
+    for fm in ('REPN', 'REPZ', 'REPUP', 'REPW'):
+        for depth in (2, 3):
+            for oneline in (False, True):
+                body = [['assign', 'x0', ('inc', 'x0', 1)]]
+                for lv in range(depth, 0, -1):
+                    body = [['loop', 'x%d' % lv, body], ['assign', 'x%d' % (lv + 3), ('inc', 'x%d' % (lv + 3), 1)]]
+                main = sources.number([], [['assign', 'x1', ('num', 3)], ['assign', 'x2', ('num', 2)], ['assign', 'x3', ('num', 2)]] + body)[1]
+                text, _ = sources.canonical([], main, None, pv=pv_macro, loopfmt=lambda st: fm)
+                if oneline:
+                    text = text.replace('\n', ' ')
+                files = {b'm': b'include "lib"\n' + text.encode(), b'lib': MACRO_LIB.encode()}
+                out.append({'defs': [], 'main': main, 'mainf': b'm', 'files': files, 'layout': 'macro', 'L': None,
+                            'text': {k.decode(): v.decode('latin1') for k, v in files.items()}})
     return out
 
 
@@ -207,6 +271,43 @@ def check_C03(ctx):
     ]
     for s in corner:
         cases.append({'defs': None, 'main': None, 'mainf': b'm', 'files': {b'm': s.encode()}, 'layout': 'corner', 'text': {'m': s}})
+    # token neighbours of valid programs (one or two edits; plus every call given one argument more / one fewer): most are
+    # rejected, but WHATEVER is accepted must be well-formed bytecode — the validator does not care whether the source was meant
+    from gen import strict
+    for _ in range(ctx.n(500, 5000)):
+        g = sources.Gen(ctx.rnd)
+        d_, m_ = g.program()
+        base = sources.toks(d_, m_)
+        if ctx.rnd.random() < 0.5:
+            ts = sources.mutate(base, ctx.rnd, nedits=ctx.rnd.randint(1, 2), vocab=strict.VOCAB)
+        else:
+            ts = list(base)
+            w = [i for i, t in enumerate(ts) if t == 'WITH']
+            if not w:
+                continue
+            i = ctx.rnd.choice(w)
+            if ts[i + 1] == 'END':
+                ts[i + 1:i + 1] = ctx.rnd.choice([['5'], ['x0'], ['5', ',', '6'], ['x0', ',', 'x1', ',', '7']])
+            elif ctx.rnd.random() < 0.5:
+                ts[i + 1:i + 1] = [ctx.rnd.choice(['5', 'x0']), ',']
+            else:
+                # drop the first argument
+                j = i + 1
+                depth = 0
+                while j < len(ts) and not (depth == 0 and ts[j] in (',', 'END')):
+                    depth += ts[j] == 'WITH'
+                    depth -= ts[j] == 'END'
+                    j += 1
+                del ts[i + 1:j + (1 if j < len(ts) and ts[j] == ',' else 0)]
+        text = sources.text_of_tokens(ts, ctx.rnd)
+        cases.append({'defs': None, 'main': None, 'mainf': b'm', 'files': {b'm': text.encode()}, 'layout': 'neighbour', 'text': {'m': text}})
+    # every (parameter count, argument count) pair up to 3 x 4, as a statement-level and as a nested call
+    for np_ in range(4):
+        for na_ in range(5):
+            hdr = 'PROGRAM f' + (' IN ' + ', '.join('p%d' % j for j in range(np_)) if np_ else '') + ' DO x0 := 1 END\n'
+            call = 'RUN f WITH ' + ', '.join(str(5 + j) for j in range(na_)) + ' END'
+            for src in (hdr + 'x1 := ' + call + '\n', hdr + 'PROGRAM g IN q DO x0 := q END\nx1 := RUN g WITH ' + call + ' END\n'):
+                cases.append({'defs': None, 'main': None, 'mainf': b'm', 'files': {b'm': src.encode()}, 'layout': 'arity', 'text': {'m': src}})
     dup = "PROGRAM f IN a, a OUT a DO a := a END\nx1 := RUN f WITH 1, 2 END\n"
     cases.append({'defs': None, 'main': None, 'mainf': b'm', 'files': {b'm': dup.encode()}, 'layout': 'dup-params', 'text': {'m': dup}})
     tri = [(c['mainf'], c['files'], c) for c in cases]
@@ -234,7 +335,7 @@ def check_C03(ctx):
     ctx.cov['rule'] = ('accepted sources (all layouts, macro layer, declaration corner cases) compiled by the implementation; every emitted program must pass wfCheck '
                        '(run by the Lean driver; soundness proved) and run under ASan/_GLIBCXX_ASSERTIONS without report; non-trivial = corner case or ≥ 2 program definitions')
     ctx.sample(cases[0]['text'])
-    ctx.sample(cases[-2]['text'])
+    ctx.sample(cases[-1]['text'])
     ctx.assumptions.append('C03_gen_wf (every output of the generator model is well-formed) is not proved universally; instead wfCheck (proved sound) validates every emitted program: translation validation')
     return finish(ctx)
 
@@ -381,7 +482,9 @@ def check_C16(ctx):
             ctx.violation('vm-crash', 'running an accepted LOOP-only source crashed: ' + rn[:200], {'m': t})
             continue
         if fields(rn).get('done') != '1':
-            v, why, info = strict.verdict(ts)
+            # the reference grammar knows the keywords in their upper-case spelling only
+            canon = {sp: kw for kw, sps in sources.SPELL.items() for sp in sps}
+            v, why, info = strict.verdict([canon.get(t_, t_) for t_ in ts])
             if v == 'REJ':
                 ctx.violation('loop-program-does-not-halt', 'an accepted source without WHILE / GOTO did not halt within 3 000 000 instructions (it is not even a sentence of the grammar: %s)' % why, {'m': t})
             elif ctx.driver:
@@ -403,6 +506,7 @@ def check_C01(ctx, thms=None):
     B = 20000
     cases = gen_programs(ctx, ctx.n(900, 9000))
     cases += gen_programs(ctx, ctx.n(150, 1500), big=True, layouts=('canonical',))
+    cases += nested_macro_loops()
     tri = [(c['mainf'], c['files'], c) for c in cases]
     a, b = front.corr_gen(ctx, tri, keys=['ok', 'code', 'maps'])
     val = translation_validation(ctx, cases, a, want_shape=True)
@@ -464,7 +568,7 @@ def check_C07(ctx, thms=None):
     build_all(ctx, ['Theo.Props.C07', 'Theo.Props.C07Compile'], thms if thms is not None else C07_THMS)
     if ctx.harness is None:
         return finish(ctx)
-    cases = gen_programs(ctx, ctx.n(600, 6000), layouts=('canonical', 'canonical_multi', 'canonical_multi', 'reentry'))
+    cases = gen_programs(ctx, ctx.n(600, 6000), layouts=('canonical', 'canonical_multi', 'canonical_multi', 'reentry', 'repeat_canon'))
     tri = [(c['mainf'], c['files'], c) for c in cases]
     a, b = front.corr_gen(ctx, tri)
     traces = impl(ctx, ['STEPTRACE %s 400000' % files_req(c['mainf'], c['files']) for c in cases], timeout=120)
